@@ -25,13 +25,45 @@ from . import core
 from .core import MachineryError
 
 ALL_READS = ["R_BODY", "R_ANON", "R_CALLBODY", "R_CTL", "R_ATTR", "R_FILTER", "R_FILTERARG",
+             "R_INCARGS", "R_INCFILE", "R_CALLEXPR", "R_TEXTFILTER", "R_BLOCKFILTER", "R_DEFFILTER",
              "R_TOPDEF_BYNAME", "R_TOPDEF_BYNAME_CTL", "R_TOPDEF_BYNAME_ANON", "R_TOPDEF_BYNAME_CALLBODY",
              "R_TOPDEF_BYNAME_CALLBODYARGS", "R_TOPDEF_BYNAME_NSCALL", "R_TOPDEF_BYNAME_VIADEF",
              "R_TOPDEF_SELF", "R_TOPDEF_VIADEF_SELF", "R_NESTED", "R_NESTED_CALLBODY", "R_NESTED_SELF", "R_NAMED"]
-BODYLEVEL = ["R_BODY", "R_ANON", "R_CALLBODY", "R_CTL", "R_ATTR", "R_FILTER", "R_FILTERARG"]
+BODYLEVEL = ["R_BODY", "R_ANON", "R_CALLBODY", "R_CTL", "R_ATTR", "R_FILTER", "R_FILTERARG",
+             "R_INCARGS", "R_INCFILE", "R_CALLEXPR", "R_TEXTFILTER", "R_BLOCKFILTER"]
 HOPS = ["HopClosure", "HopModule", "HopImport", "HopContext", "HopBuiltin", "HopUndefined", "Done"]
-PLAIN_NAMES = ["q", "zz", "item", "value_1", "Row"]
-BUILTIN_NAMES = ["ascii", "repr"]          # one-argument builtins returning "''" for ''
+PLAIN_NAMES = ["q", "zz", "item", "value_1", "Row", "loop"]     # `loop` is an ordinary name when enable_loop is off
+BUILTIN_CLASSES = {        # name classes of the BUILTIN site (Scopes.tla, BuiltinClasses)
+    "public": ["ascii", "repr", "len"],
+    "shadowable": ["id", "format", "type"],
+    "dunder": ["__import__", "__build_class__"],
+    "runtime": ["_"],       # installed into the builtins module before the render, removed afterwards
+    "exception": ["ValueError", "OSError"],    # (not KeyError/NameError: the generated module itself says `except KeyError`)
+}
+BUILTIN_NAMES = [n for c in sorted(BUILTIN_CLASSES) for n in BUILTIN_CLASSES[c]]
+TOKENS = ["CTX", "PAGE", "BODY", "DEFARG", "ENCL", "LOOP", "MOD", "IMP", "BUILTIN", "UNDEFINED"]
+
+
+class runtime_builtin:
+    """gettext.install()-style: a name put into the builtins module after mako was imported"""
+
+    def __enter__(self):
+        import builtins
+        self.had = hasattr(builtins, "_")
+        self.old = getattr(builtins, "_", None)
+        builtins._ = _installed
+        return self
+
+    def __exit__(self, *a):
+        import builtins
+        if self.had:
+            builtins._ = self.old
+        else:
+            del builtins._
+
+
+def _installed(*a):
+    return "installed-at-run-time"
 
 
 def lam(tok):
@@ -57,6 +89,12 @@ def inner_for(name, r):
         "R_TOPDEF_BYNAME_VIADEF": "${k_%s()}" % name,
         "R_TOPDEF_VIADEF_SELF": "${self.k_%s()}" % name,
         "R_NESTED_CALLBODY": "<%%call expr='w()'>${f_%s()}</%%call>" % name,
+        "R_INCARGS": "<%%include file='echo_page' args='v=show(%s)'/>" % name,
+        "R_INCFILE": "<%%include file=\"${'t_' + show2(capture, %s)}\"/>" % name,
+        "R_CALLEXPR": "<%%call expr='echo(show(%s))'></%%call>" % name,
+        "R_TEXTFILTER": "<%%text filter='pick(%s)'>.</%%text>" % name,
+        "R_BLOCKFILTER": "<%%block filter='pick(%s)'>.</%%block>" % name,
+        "R_DEFFILTER": "${f_%s()}" % name,
         "R_TOPDEF_SELF": "${self.f_%s()}" % name,
         "R_NESTED": "${f_%s()}" % name,
         "R_NESTED_SELF": "${self.f_%s()}" % name,
@@ -87,8 +125,11 @@ def build_case(S, r, name):
     encl = ("<%% %s = %s %%>" % (name, lam("ENCL"))) if has("ENCL") else ""
     rd = "${show(%s)}" % name
     nested = r.startswith("R_NESTED")
-    t += "<%%def name=\"f_%s(%s)\">%s%s</%%def>\n" % (
-        name, darg, encl, ("<%def name='g()'>" + rd + "</%def>${g()}") if nested else rd)
+    if r == "R_DEFFILTER":
+        t += "<%%def name=\"f_%s(%s)\" filter=\"pick(%s)\">.</%%def>\n" % (name, darg, name)
+    else:
+        t += "<%%def name=\"f_%s(%s)\">%s%s</%%def>\n" % (
+            name, darg, encl, ("<%def name='g()'>" + rd + "</%def>${g()}") if nested else rd)
     if has("BODY"):
         t += "<%% %s = %s %%>\n" % (name, lam("BODY"))
     inner = inner_for(name, r)
@@ -108,7 +149,8 @@ class Env:
         import builtins
         from mako.runtime import UNDEFINED
         self.names = names
-        bi = {getattr(builtins, n): n for n in BUILTIN_NAMES}
+        bi = {getattr(builtins, n): n for n in BUILTIN_NAMES if hasattr(builtins, n)}
+        bi[_installed] = "_"
 
         def show(v):
             if v is UNDEFINED:
@@ -125,7 +167,13 @@ class Env:
 
         def pick(v):
             return lambda s: show(v)
-        self.helpers = {"show": show, "pick": pick}
+
+        def show2(capture, v):
+            """like show, but what an imported def WRITES is captured and returned (for expressions that need the text)"""
+            box = []
+            out = capture(lambda: box.append(show(v)))
+            return out.strip() + box[0]
+        self.helpers = {"show": show, "pick": pick, "show2": show2}
 
     def lib(self):
         return "".join("<%%def name='%s(*a)'>IMP</%%def>" % n for n in self.names)
@@ -133,12 +181,22 @@ class Env:
 
 def observe_render(lk, uri, ctx, name, direct_filter=False):
     """render and project: the token the read site produced, or the exception class"""
+    import builtins
     import re
+    native = None
+    if direct_filter and hasattr(builtins, name):
+        # ${'' | name}: when the name is the builtin, the builtin itself is applied to ''
+        try:
+            value = getattr(builtins, name)("")
+            # the result of a filter is written as it is: anything but text is a TypeError of the buffer
+            native = ("out", re.sub(r"\s+", "", value)) if isinstance(value, str) else ("exc", "TypeError")
+        except Exception as e:  # noqa
+            native = ("exc", type(e).__name__)
     try:
         t = lk.get_template(uri)
         out = re.sub(r"\s+", "", t.render_unicode(**ctx))
-        if direct_filter and out == "''":
-            return "BUILTIN"           # the builtin itself was applied as the filter
+        if native == ("out", out) and out not in TOKENS:
+            return "BUILTIN"
         return out
     except NameError as e:
         if type(e) is NameError and ("'%s'" % name) in str(e):
@@ -149,37 +207,47 @@ def observe_render(lk, uri, ctx, name, direct_filter=False):
     except TypeError as e:
         if direct_filter and "Undefined" in str(e):
             return "UNDEFINED"         # UNDEFINED('') : the name resolved to the UNDEFINED singleton
+        if native == ("exc", "TypeError"):
+            return "BUILTIN"
         return "exc:TypeError:%s" % str(e)[:60]
     except Exception as e:  # noqa -- any failure of the code under test is an observation
+        if native == ("exc", type(e).__name__):
+            return "BUILTIN"
         return "exc:%s:%s" % (type(e).__name__, str(e)[:60])
 
 
 def run_case(case, rng):
     from mako.lookup import TemplateLookup
     S, r, strict = case["S"], case["r"], case["strict"]
-    name = rng.choice(BUILTIN_NAMES) if "BUILTIN" in S else rng.choice(PLAIN_NAMES)
-    env = Env([name])
-    lk = TemplateLookup(strict_undefined=strict)
-    lk.put_string("lib", env.lib())
-    src = build_case(S, r, name)
-    lk.put_string("main", src)
-    ctx = dict(env.helpers)
-    if "CTX" in S:
-        ctx[name] = (lambda *a: "CTX")
-    obs = observe_render(lk, "main", ctx, name, direct_filter=(r == "R_FILTER"))
+    name = rng.choice(BUILTIN_CLASSES[case["bclass"]]) if "BUILTIN" in S else rng.choice(PLAIN_NAMES)
+    with runtime_builtin():
+        env = Env([name])
+        lk = TemplateLookup(strict_undefined=strict, enable_loop=(name != "loop"))
+        lk.put_string("lib", env.lib())
+        lk.put_string("echo_page", "<%page args='v'/>${v}")
+        for tok in TOKENS:
+            lk.put_string("t_" + tok, tok)
+        src = build_case(S, r, name)
+        lk.put_string("main", src)
+        ctx = dict(env.helpers)
+        if "CTX" in S:
+            ctx[name] = (lambda *a: "CTX")
+        obs = observe_render(lk, "main", ctx, name, direct_filter=(r == "R_FILTER"))
     return obs, src, name
 
 
-def site_signature(S, r, strict, exp, obs):
+def site_signature(S, r, strict, exp, obs, bclass="none"):
+    if bclass not in ("none", "public"):
+        r = r + "[" + bclass + "-builtin]"
     obs_c = obs.split(":")[0] + (":" + obs.split(":")[1] if obs.startswith("exc:") else "")
     return "resolve:%s:%s:%s:expected-%s:got-%s" % (r, "+".join(sorted(S)) or "nowhere", "strict" if strict else "lax", exp, obs_c)
 
 
 def part_resolution(run):
     max_sites = 4 if run.thorough else 3
-    cfg = ("CONSTANTS MaxSites = %d\nReadSites = {%s}\nSPECIFICATION Spec\n"
+    cfg = ("CONSTANTS MaxSites = %d\nClassSites = %d\nReadSites = {%s}\nSPECIFICATION Spec\n"
            "INVARIANT ResolveTotalAndOrdered\nINVARIANT HopsAscending\nINVARIANT StrictOnlyWhenMissing\nCHECK_DEADLOCK FALSE\n"
-           % (max_sites, ", ".join('"%s"' % r for r in ALL_READS)))
+           % (max_sites, 3 if run.thorough else 2, ", ".join('"%s"' % r for r in ALL_READS)))
     res = run.tlc("Scopes", cfg, name="mc-scopes", workers=4, coverage=True, timeout=600)
     if res.violated:
         run.spec_violation(res)
@@ -191,7 +259,9 @@ def part_resolution(run):
     for c in res.json_lines():
         if isinstance(c, dict) and "expect" in c and "r" in c:
             c["S"] = sorted(c["S"])
-            cases[(tuple(c["S"]), c["r"], c["strict"])] = c
+            cases[(tuple(c["S"]), c["r"], c["strict"], c["bclass"])] = c
+    if {c["bclass"] for c in cases.values()} != set(BUILTIN_CLASSES) | {"none"}:
+        raise MachineryError("not every builtin name class enumerated")
     if len(cases) < 500:
         raise MachineryError("Scopes printed only %d cases" % len(cases))
     # every read site and every token must occur (vacuity of the enumeration)
@@ -209,7 +279,7 @@ def part_resolution(run):
         run.traces += 1
         if obs != c["expect"]:
             n_bad += 1
-            run.violation(site_signature(c["S"], c["r"], c["strict"], c["expect"], obs),
+            run.violation(site_signature(c["S"], c["r"], c["strict"], c["expect"], obs, c["bclass"]),
                           "read site %s with bindings %s (strict=%s): the spec's chain %s ends in %s, the template saw %s"
                           % (c["r"], c["S"], c["strict"], c["hops"], c["expect"], obs),
                           {"case": c, "template": src, "name": name, "observed": obs})
@@ -231,12 +301,17 @@ def record_multi(rng, tid, strict):
     from mako.lookup import TemplateLookup
     import re
     nvars = rng.choice([2, 3])
-    pool = PLAIN_NAMES[:]
+    pool = [n for n in PLAIN_NAMES if n != "loop"]
+    bcls = {}
     rng.shuffle(pool)
     names, sets = [], {}
     for i in range(nvars):
-        use_bi = rng.random() < 0.3 and i < len(BUILTIN_NAMES)
-        nm = BUILTIN_NAMES[i] if use_bi else pool[i]
+        use_bi = rng.random() < 0.4
+        cls = rng.choice(sorted(BUILTIN_CLASSES))
+        nm = rng.choice(BUILTIN_CLASSES[cls]) if use_bi else pool[i]
+        if nm in names:
+            use_bi, nm = False, pool[i]
+        bcls[nm] = cls if use_bi else "none"
         k = rng.choice([0, 1, 2, 3, 4, 5])
         cand = ["CTX", "PAGE", "BODY", "DEFARG", "ENCL", "MOD", "IMP", "LOOP"]
         S = set(rng.sample(cand, k))
@@ -298,17 +373,28 @@ def record_multi(rng, tid, strict):
         t += "% endfor\n"
     lk = TemplateLookup(strict_undefined=strict)
     lk.put_string("lib", env.lib())
+    lk.put_string("echo_page", "<%page args='v'/>${v}")
+    for tok in TOKENS:
+        lk.put_string("t_" + tok, tok)
     ctx = dict(env.helpers)
     for n in names:
         if has(n, "CTX"):
             ctx[n] = (lambda *a: "CTX")
+    events = []
+    with runtime_builtin():
+        events = _record_render(lk, t, ctx, names, reads, sets, bcls, strict)
+    return events, t, reads, sets, bcls
+
+
+def _record_render(lk, t, ctx, names, reads, sets, bcls, strict):
+    import re
     events = []
     try:
         lk.put_string("main", t)
         out = re.sub(r"\s+", "", lk.get_template("main").render_unicode(**ctx))
         got = dict(((m.group(1), m.group(2)), m.group(3)) for m in re.finditer(r"\{(\w+)/(\w+)=([^{}]*)\}", out))
         for (n, r) in reads:
-            events.append({"S": sorted(sets[n]), "r": r, "strict": strict, "obs": got.get((n, r), "missing"), "name": n})
+            events.append({"S": sorted(sets[n]), "r": r, "strict": strict, "obs": got.get((n, r), "missing"), "name": n, "bclass": bcls[n]})
     except NameError as e:
         # strict: the first missing name aborts the render; record that one read only
         m = re.search(r"'(\w+)' is not defined", str(e))
@@ -316,19 +402,19 @@ def record_multi(rng, tid, strict):
         if type(e) is NameError and nm in names:
             # any read site of that variable whose spec result is NameError explains the abort; record the
             # by-construction earliest hoisting function: the body (hoists every undeclared name first)
-            events.append({"S": sorted(sets[nm]), "r": "*", "strict": strict, "obs": "NameError", "name": nm})
+            events.append({"S": sorted(sets[nm]), "r": "*", "strict": strict, "obs": "NameError", "name": nm, "bclass": bcls[nm]})
         else:
-            events.append({"S": [], "r": "R_BODY", "strict": strict, "obs": "exc:NameError:%s" % str(e)[:50], "name": "?"})
+            events.append({"S": [], "r": "R_BODY", "strict": strict, "obs": "exc:NameError:%s" % str(e)[:50], "name": "?", "bclass": "none"})
     except Exception as e:  # noqa
-        events.append({"S": [], "r": "R_BODY", "strict": strict, "obs": "exc:%s:%s" % (type(e).__name__, str(e)[:50]), "name": "?"})
-    return events, t, reads, sets
+        events.append({"S": [], "r": "R_BODY", "strict": strict, "obs": "exc:%s:%s" % (type(e).__name__, str(e)[:50]), "name": "?", "bclass": "none"})
+    return events
 
 
 def part_recorded(run):
     n = 400 if run.thorough else 120
     traces, srcs = [], {}
     for tid in range(1, n + 1):
-        ev, src, reads, sets = record_multi(run.rng, tid, strict=False)
+        ev, src, reads, sets, sets_b = record_multi(run.rng, tid, strict=False)
         if ev:
             traces.append({"id": tid, "events": ev})
             srcs[tid] = src
@@ -336,7 +422,7 @@ def part_recorded(run):
     # resolves to NameError.  Each (variable, read) is offered to TLC; at least one must come out NameError.
     strict_groups = []
     for tid in range(n + 1, n + 1 + n // 2):
-        ev, src, reads, sets = record_multi(run.rng, tid, strict=True)
+        ev, src, reads, sets, sets_b = record_multi(run.rng, tid, strict=True)
         srcs[tid] = src
         if len(ev) == 1 and ev[0]["r"] == "*":
             nm = ev[0]["name"]
@@ -345,7 +431,7 @@ def part_recorded(run):
                 if vn == nm:
                     aid = tid * 1000 + k
                     alts.append(aid)
-                    traces.append({"id": aid, "events": [{"S": sorted(sets[nm]), "r": r, "strict": True, "obs": "NameError", "name": nm}]})
+                    traces.append({"id": aid, "events": [{"S": sorted(sets[nm]), "r": r, "strict": True, "obs": "NameError", "name": nm, "bclass": sets_b[nm]}]})
             strict_groups.append((tid, alts, ev[0]))
         elif ev:
             traces.append({"id": tid, "events": ev})
@@ -359,7 +445,7 @@ def part_recorded(run):
             e = bad["events"][len(bad["events"]) // 2]
             e["obs"] = "MOD" if e["obs"] != "MOD" else "CTX"
             break
-    cfg = ("CONSTANTS MaxSites = 9\nReadSites = {%s}\nSPECIFICATION TSpec\nINVARIANT ResolveTotalAndOrdered\nCHECK_DEADLOCK FALSE\n"
+    cfg = ("CONSTANTS MaxSites = 9\nClassSites = 9\nReadSites = {%s}\nSPECIFICATION TSpec\nINVARIANT ResolveTotalAndOrdered\nCHECK_DEADLOCK FALSE\n"
            % ", ".join('"%s"' % r for r in ALL_READS))
     verdicts = run.validate_traces("Trace_Scopes", cfg, traces + ([bad] if bad else []), name="trace-scopes", workers=4)
     if bad:
